@@ -59,6 +59,8 @@ def catalogue():
     add("tab-nr-one", "pair", sub(P, "nr : 8", "nr : 1"), "cfg", "a one-row table")
     add("tab-nrho-one", "eam", sub(E, "nrho : 4", "nrho : 1"), "cfg", "a one-row density grid")
     add("tab-dlpoly-not-mult-4", "pair", sub(sub(P, "target : LAMMPS", "target : DL_POLY"), "nr : 8", "nr : 10"), "cfg", "DL_POLY row count not divisible by four")
+    add("tab-dlpoly-four-rows", "pair", sub(sub(P, "target : LAMMPS", "target : DL_POLY"), "nr : 8", "nr : 4"), "cfg", "DL_POLY table with four rows (grid increment cutoff/(rows-4) undefined)")
+    add("tab-dlpoly-four-rows-by-step", "pair", sub(sub(P, "target : LAMMPS", "target : DL_POLY"), "cutoff : 4.0\nnr : 8", "dr : 0.005\ncutoff : 0.015"), "cfg", "DL_POLY table with four rows given as dr and cutoff")
     # ---- file level
     add("file-not-ini", "pair", "this is not an ini file\njust text\n", "cfg", "text that is not an INI file")
     add("file-line-without-delimiter", "pair", sub(P, "Si-O : as.buck 1000.0 0.3 32.0", "Si-O as.buck 1000.0 0.3 32.0"), "cfg", "line without ':' or '='")
